@@ -185,7 +185,9 @@ func (e *env) run(family string, ti int, in codecx.Input) {
 	pred := ""
 	if e.d != nil {
 		hexIn := in.String()
-		if in.Count > 0 {
+		if len(in.Prefix) > 0 {
+			hexIn = h.Hex(in.Bytes())
+		} else if in.Count > 0 {
 			// the model stops at its depth budget: a prefix that is deeper than the budget is enough
 			n := in.Count
 			if n > fuel+10 {
@@ -295,8 +297,8 @@ func (e *env) judge(c, pred string, o codecx.Outcome, inLen int, family string) 
 	}
 	ty, hx := splitCase(c)
 	var raw []byte
-	if in, err := codecx.ParseInput(hx); err == nil && in.Count == 0 {
-		raw = in.Suffix
+	if in, err := codecx.ParseInput(hx); err == nil && (in.Count == 0 || len(in.Prefix) > 0) {
+		raw = in.Bytes()
 	}
 	sig := e.signature(res, pred, o.Stack, ty, raw)
 	detail := fmt.Sprintf("Decode of %d bytes: %s", inLen, trunc(res, 200))
@@ -448,13 +450,14 @@ func (e *env) directed() {
 	}
 	// a consistent dimension list [n, 1, …, 1]: split() builds n rows on each of the k levels (quadratic)
 	{
-		n, k := 3000, 3000
-		dims := make([]uint32, k)
-		dims[0] = uint32(n)
-		for i := 1; i < k; i++ {
-			dims[i] = 1
-		}
-		e.run("risky:dims-depth", v, codecx.Plain(codecx.VariantHeader(0xc3, uint32(n), rep(7, n), dims, true)))
+		// few elements, many dimensions: the model's cost per row is proportional to the number of elements, the
+		// real decoder's to elements x dimensions (9 million rows: far beyond the child's timeout)
+		n, k := 450, 30000
+		head := codecx.VariantHeader(0xc3, uint32(n), rep(7, n), []uint32{uint32(n)}, true)
+		head[5+n] = byte(k) // dimensions length k (little endian) instead of 1
+		head[6+n] = byte(k >> 8)
+		head[7+n] = byte(k >> 16)
+		e.run("risky:dims-depth", v, codecx.Input{Prefix: head, Unit: []byte{1, 0, 0, 0}, Count: k - 1})
 		e.run("dims-depth", v, codecx.Plain(codecx.VariantHeader(0xc3, 3, rep(7, 3), []uint32{3, 1, 1, 1}, true)))
 		e.run("dims-depth", v, codecx.Plain(codecx.VariantHeader(0xc3, 24, rep(7, 24), append([]uint32{24}, make1(23)...), true)))
 	}
